@@ -83,7 +83,7 @@ def required(tier):
         "mode_checked": 4000 * k, "support_checked": 4000 * k, "support_with_dosage_variants": 400 * k,
         "support_differs_from_mode_genotype_support": 40 * k,
         "allele_frequencies_checked": 3000 * k, "repeated_unit_in_genotype": 2500 * k, "posterior_frequencies_checked": 2000 * k, "posterior_frequencies_order_variants": 300 * k,
-        "second_pass_on_same_objects": 500 * k,
+        "second_pass_on_same_objects": 500 * k, "incongruence_queried_before_posterior": 500 * k,
         "prog_traces_checked": 100 * k, "prog_modes_checked": 60 * k, "prog_allele_vectors_checked": 200 * k, "prog_mci_checked": 80 * k,
         "prog_traces_relabelled_after_masking": 5 * k,
         "as_array_checked": 2000 * k, "incongruence_checked": 4000 * k, "incongruence_decided_0": 2000 * k,
@@ -210,7 +210,7 @@ _index_ok = {}
 def vcf_index(g, n_alleles):
     """VCF G-field index of sorted genotype g, cross-checked once per space against explicit enumeration."""
     k = (n_alleles, len(g))
-    if k not in _index_ok:
+    if k not in _index_ok and M.n_genotypes(*k) <= 20000:   # larger spaces: closed form only (cross-checked on the small ones)
         gs = M.genotypes_vcf_order(n_alleles, len(g))
         assert all(M.genotype_index(x) == i for i, x in enumerate(gs)) and len(gs) == M.n_genotypes(*k)
         _index_ok[k] = True
@@ -257,9 +257,16 @@ def index_trace(rng, chains, steps, k, style):
     return idx
 
 
+HIGH_ALLELE_PLOIDIES = [8, 12, 20, 64, 127, 128, 129, 200, 256]
+HIGH_HAP_PLOIDIES = [8, 12, 20, 64, 128, 130, 200]
+
+
 def gen_hap_trace(rng):
     chains, steps = gen_sizes(rng)
     ploidy = int(rng.integers(1, 7))
+    if rng.random() < 0.05:
+        ploidy = int(rng.choice(HIGH_HAP_PLOIDIES))   # pooled samples
+        steps = min(steps, 100)
     n_pos = 0 if rng.random() < 0.04 else int(rng.integers(1, 7))
     n_all = rng.integers(2, 5, size=n_pos)
     style = str(rng.choice(["pool", "pool", "pool", "cycle", "random"]))
@@ -307,6 +314,11 @@ def gen_allele_trace(rng):
     chains, steps = gen_sizes(rng)
     ploidy = int(rng.integers(1, 7))
     n_allele = int(rng.integers(1, 9))
+    if rng.random() < 0.06:
+        # pooled samples: copy numbers of one allele beyond 127 / 255 (few alleles, so that G-length arrays stay small)
+        ploidy = int(rng.choice(HIGH_ALLELE_PLOIDIES))
+        n_allele = int(rng.integers(1, 4)) if ploidy > 20 else int(rng.integers(1, 6))
+        steps = min(steps, 120)
     G = gen_allele_matrix(rng, chains, steps, ploidy, n_allele)
     dtype = [np.int32, np.int32, np.int16, np.int8, np.int64][int(rng.integers(5))]
     return np.ascontiguousarray(G.astype(dtype)), n_allele
@@ -691,6 +703,16 @@ def run_hap(rng, col, payload):
         if got_keys != emp.chains:
             cx.v("burn-retains-wrong-steps", "burn(%d): retained steps are not steps %d.. of every chain as multisets" % (n, n))
             continue
+        if rng.random() < 0.5:
+            # query order is an input dimension too: the incongruence flag and the per-chain split asked of a FRESH burned
+            # trace, before any posterior() was computed on that object (the programs happen to ask for posterior() first)
+            cx.col.count("incongruence_queried_before_posterior")
+            fresh = trace.burn(n)
+            check_incongruence(fresh, emp, thr, cx, "hap")
+            if rng.random() < 0.5:
+                check_split(trace.burn(n), emp, hap_key, cx)
+            if n == 0 and rng.random() < 0.5:
+                check_incongruence(GenotypeMultiTrace(G_in.copy(), llks.copy()), emp, thr, cx, "hap")
         post = bt.posterior()
         if check_posterior(post, emp, hap_key, cx) is None:
             continue
